@@ -37,7 +37,10 @@ def case_strategy(draw, tier="quick"):
     w = {"value": draw(st.sampled_from(["1s", "2s", "5s"]))} \
         if timed and draw(st.integers(0, 3)) != 0 else {"n": draw(st.integers(1, 6))}
     expr = {"base": draw(st.sampled_from(["x", "y", "xy", "x"])), "group": group,
-            "agg": draw(st.sampled_from(GAGGS if group else AGGS)), "window": w}
+            "agg": draw(st.sampled_from(GAGGS if group else AGGS)), "window": w,
+            # how the caller spells the window: a row count may be a numpy integer, a span a
+            # pandas Timedelta
+            "spell": draw(st.sampled_from(["plain", "plain", "typed"]))}
     if expr["agg"] == "value_counts":
         expr["base"] = draw(st.sampled_from(["y", "g"]))
     if expr["agg"] in ("var", "std") and expr["base"] == "xy" and not group:
@@ -55,6 +58,17 @@ def case_strategy(draw, tier="quick"):
     return {"table": t, "cuts": cuts, "expr": expr}
 
 
+def win_kw(expr):
+    w = dict(expr["window"])
+    if expr.get("spell") == "typed":
+        import numpy as np
+        if "n" in w:
+            w["n"] = np.int64(w["n"])
+        else:
+            w["value"] = pd.Timedelta(w["value"])
+    return w
+
+
 def ddof(expr):
     return {"ddof": expr["ddof"]} if "ddof" in expr else {}
 
@@ -67,13 +81,13 @@ def window_slice(cat, w):
 
 
 def stream_expr(sdf, expr):
-    w = sdf.window(**expr["window"])
+    w = sdf.window(**win_kw(expr))
     if expr["group"]:
         sel = {"xy": ["x", "y"], "x": "x", "y": "y"}[expr["base"]]
         if expr.get("late_grouper"):
             wide = sdf[["x", "y"]] * 1
             key = sdf.g
-            return getattr(wide.window(**expr["window"]).groupby(key)[sel], expr["agg"])(**ddof(expr))
+            return getattr(wide.window(**win_kw(expr)).groupby(key)[sel], expr["agg"])(**ddof(expr))
         gb = w.groupby("g") if expr["group"] == "col" else w.groupby(w.g)
         return getattr(gb[sel], expr["agg"])(**ddof(expr))
     if expr["agg"] == "full":
